@@ -12,7 +12,8 @@ DESIGN_REF = "DESIGN.md §9 C19, §12.C19"
 COQ_TARGETS = ["Properties/C19", "Pins/C19"]
 THEOREMS = [("PdfV.Properties.C19", n) for n in [
     "C19_get_set", "C19_set_ok", "C19_cid_widths", "C19_cid_widths_last_wins", "C19_widths_no_panic",
-    "C19_type0_no_panic", "C19_simple_widths", "C19_utf16_rt", "C19_cmap_read"]]
+    "C19_type0_no_panic", "C19_simple_widths", "C19_utf16_rt", "C19_cmap_read", "C19_cmap_rt", "C19_cmap_write",
+    "C19_cmap_rt_created"]]
 ANCHORS = ["font:"]
 MODES = ["widths", "cmap_write", "cmap_read", "cmap_rt", "utf16dec"]
 TRUSTED_BASE = ["coqc 8.16.1 kernel (vm_compute for table lemmas and witnesses; no native_compute)",
